@@ -143,7 +143,8 @@ let check_kind (prop : string) (b : block) : verdict list =
                   List.concat_map (fun v -> (if fixed v then [v] else []) @ (if fixed (-v) then [-v] else []))
                     (List.init n (fun i -> i + 1)) in
               if ir <> exp then
-                add (Viol (sig_of "core" (if a = [] then "syntactic-incomplete" else "with-assumptions"),
+                let c2d_false = List.exists (fun (k, ls) -> k = "c2d" && List.mem "O 0 0" ls) b.files in
+                add (Viol (sig_of "core" (if a = [] then (if c2d_false then "c2d-false-node" else "syntactic-incomplete") else "with-assumptions"),
                            Printf.sprintf "core [%s] = [%s] but the literals fixed in all models are [%s]" opdesc
                              (String.concat " " res) (String.concat " " (List.map string_of_int exp))))
             | _ -> ());
